@@ -5,8 +5,8 @@
 //! and both must produce the same line.
 use crate::guarded;
 use crate::sx::*;
-use easy_ml::matrices::slices::{Slice, Slice2D};
-use easy_ml::matrices::views::{MatrixMut, MatrixRef};
+use easy_ml::matrices::slices::{self, Slice, Slice2D};
+use easy_ml::matrices::views::{MatrixMut, MatrixRef, MatrixView};
 use easy_ml::matrices::Matrix;
 
 /// The element types the histories are run with.
@@ -57,6 +57,18 @@ fn slice(s: &Sx) -> Option<Slice> {
     })
 }
 
+/// The same slice expression built with the combinator methods `not` / `and` / `or`.
+fn slice_by_methods(s: &Sx) -> Option<Slice> {
+    let v = s.list()?;
+    let tag = v.first()?.i64()?;
+    Some(match (tag, v.len()) {
+        (4, 2) => slice_by_methods(&v[1])?.not(),
+        (5, 3) => slice_by_methods(&v[1])?.and(slice_by_methods(&v[2])?),
+        (6, 3) => slice_by_methods(&v[1])?.or(slice_by_methods(&v[2])?),
+        _ => return slice(s),
+    })
+}
+
 enum Op {
     InsertRow(usize, i64),
     InsertRowWith(usize, Vec<i64>),
@@ -71,6 +83,7 @@ enum Op {
     Set(usize, usize, i64),
     MapMut(i64),
     MapMutWithIndex(i64),
+    PartitionFill(Vec<usize>, Vec<usize>, usize, i64),
 }
 
 fn op(s: &Sx) -> Option<Op> {
@@ -98,6 +111,7 @@ fn op(s: &Sx) -> Option<Op> {
         (10, 4) => Op::Set(v[1].usize()?, v[2].usize()?, v[3].i64()?),
         (11, 2) => Op::MapMut(v[1].i64()?),
         (12, 2) => Op::MapMutWithIndex(v[1].i64()?),
+        (13, 5) => Op::PartitionFill(v[1].usizes()?, v[2].usizes()?, v[3].usize()?, v[4].i64()?),
         _ => return None,
     })
 }
@@ -105,8 +119,9 @@ fn op(s: &Sx) -> Option<Op> {
 fn slice2d(r: &Sx, c: &Sx) -> Slice2D {
     Slice2D::new().rows(slice(r).unwrap()).columns(slice(c).unwrap())
 }
+/// columns first, through the free function `slices::new()`, the slices built by the methods
 fn slice2d_other_order(r: &Sx, c: &Sx) -> Slice2D {
-    Slice2D::new().columns(slice(c).unwrap()).rows(slice(r).unwrap())
+    slices::new().columns(slice_by_methods(c).unwrap()).rows(slice_by_methods(r).unwrap())
 }
 
 fn start<E: Elem>(s: &Sx) -> Option<Option<Matrix<E>>> {
@@ -124,6 +139,12 @@ fn start<E: Elem>(s: &Sx) -> Option<Option<Matrix<E>>> {
         }
         (2, 2) => {
             let x = v[1].i64()?;
+            // the deprecated alias must build the same matrix
+            #[allow(deprecated)]
+            let alias = Matrix::unit(E::of(x));
+            if alias != Matrix::from_scalar(E::of(x)) {
+                return None;
+            }
             Some(Matrix::from_scalar(E::of(x)))
         }
         (3, 2) => {
@@ -234,7 +255,38 @@ fn observe<E: Elem>(m: &Matrix<E>) -> Sx {
     ])
 }
 
+/// `(11 2 S S (i ...))`: Slice::accepts / Slice2D::accepts, for the enum-built and the
+/// method-built expression and both builder orders.
+fn accepts_case(args: &[Sx]) -> Sx {
+    if args.len() != 4 {
+        return bad_case();
+    }
+    let (Some(a), Some(b), Some(probes)) = (slice(&args[1]), slice(&args[2]), args[3].usizes()) else {
+        return bad_case();
+    };
+    let (Some(a2), Some(b2)) = (slice_by_methods(&args[1]), slice_by_methods(&args[2])) else { return bad_case() };
+    let both = slice2d(&args[1], &args[2]);
+    let both2 = slice2d_other_order(&args[1], &args[2]);
+    let (mut ra, mut rb, mut rab) = (vec![], vec![], vec![]);
+    for (n, &i) in probes.iter().enumerate() {
+        let next = probes[(n + 1) % probes.len()];
+        if a.accepts(i) != a2.accepts(i) || b.accepts(i) != b2.accepts(i) {
+            return inconsistent(1122);
+        }
+        if both.accepts(i, next) != both2.accepts(i, next) || both.accepts(i, next) != (a.accepts(i) && b.accepts(next)) {
+            return inconsistent(1123);
+        }
+        ra.push(boolean(a.accepts(i)));
+        rb.push(boolean(b.accepts(i)));
+        rab.push(boolean(both.accepts(i, next)));
+    }
+    l(vec![l(ra), l(rb), l(rab)])
+}
+
 pub fn run(args: &[Sx]) -> Sx {
+    if args.first().and_then(|x| x.i64()) == Some(2) {
+        return accepts_case(args);
+    }
     let a = history::<i64>(args);
     let b = history::<Heap>(args);
     if a != b {
@@ -291,6 +343,24 @@ fn apply<E: Elem>(m: &mut Matrix<E>, o: Op) -> Result<bool, i64> {
             if wrote_a != wrote || wrote_b != wrote || a != *m || b != *m {
                 return Err(1131);
             }
+            // ... also through the MatrixMut of views over the matrix
+            let mut e = m.clone();
+            let wrote_e = guarded(|| MatrixView::from(&mut e).set(r, c, E::of(v))).is_some();
+            let mut f = m.clone();
+            let wrote_f = guarded(|| {
+                let (rows, columns) = f.size();
+                f.range_mut(0..rows, 0..columns).set(r, c, E::of(v))
+            })
+            .is_some();
+            let mut g = MatrixView::from(m.clone());
+            let wrote_g = match guarded(|| g.try_get_reference_mut(r, c).map(|cell| *cell = E::of(v))) {
+                Some(Some(())) => true,
+                Some(None) => false,
+                None => return Err(1135),
+            };
+            if wrote_e != wrote || wrote_f != wrote || wrote_g != wrote || e != *m || f != *m || g.source() != *m {
+                return Err(1136);
+            }
             if wrote {
                 let mut d = m.clone();
                 unsafe { *d.get_reference_unchecked_mut(r, c) = E::of(v) };
@@ -316,6 +386,24 @@ fn apply<E: Elem>(m: &mut Matrix<E>, o: Op) -> Result<bool, i64> {
                 return Err(1134);
             }
             fine
+        }
+        Op::PartitionFill(rp, cp, k, v) => {
+            let done = guarded(|| {
+                let mut parts = m.partition(&rp, &cp);
+                if let Some(part) = parts.get_mut(k) {
+                    if k % 2 == 0 {
+                        part.map_mut(|_| E::of(v));
+                    } else {
+                        let (rows, columns) = part.size();
+                        for i in 0..rows {
+                            for j in 0..columns {
+                                part.set(i, j, E::of(v));
+                            }
+                        }
+                    }
+                }
+            });
+            done.is_some()
         }
     };
     Ok(fine)
